@@ -608,6 +608,45 @@ def rust_local_field_assigns(f):
     return out
 
 
+def c_flush_variants(body):
+    """the Z_* flush constants a C function body compares its `flush` argument with"""
+    out = set()
+    for m in re.finditer(r"\bflush\s*(?:==|!=|<=|>=|<|>)\s*(Z_[A-Z_]+)", body):
+        out.add(m.group(1))
+    for m in re.finditer(r"(Z_[A-Z_]+)\s*(?:==|!=)\s*flush\b", body):
+        out.add(m.group(1))
+    return {ENUMS[z] for z in out if z in ENUMS}
+
+
+def rust_flush_variants(fns):
+    """the flush variants that the functions' branches on a local or parameter named `flush` distinguish"""
+    out = set()
+    for f in fns:
+        for b in sorted(f.live):
+            if f.blocks[b]["t"]["k"] != "switch" or b in f.debug_branches:
+                continue
+            for lab, tb in f.succ[b]:
+                if lab is None or lab[0] == "const":
+                    continue
+                for a in f.edge_atoms(b, lab, expand=False):
+                    if a[0] == "is" and str(a[4]).endswith("Flush"):
+                        e = mir.strip_casts(a[1])
+                        while e[0] in ("*", "&"):
+                            e = e[1]
+                        if e[0] in ("v", "p") and (f.local_name(e[1]) or "") == "flush":
+                            out |= {str(x) for x in a[2]}
+                    if a[0] == "cmp" and a[1] in ("Eq", "Ne"):
+                        # `flush == DeflateFlush::NoFlush` through PartialEq
+                        for x, y in ((a[2], a[3]), (a[3], a[2])):
+                            x = mir.strip_casts(x)
+                            while x[0] in ("*", "&"):
+                                x = x[1]
+                            if x[0] in ("v", "p") and (f.local_name(x[1]) or "") == "flush" and isinstance(y, tuple) and y[0] == "agg" \
+                                    and str(y[1]).endswith("Flush") and isinstance(y[2], str):
+                                out.add(y[2])
+    return out
+
+
 def rust_local_opassigns(f):
     """{(local name, operator): sites} for every `x = x OP ..` on a named local of one function (also through shadowing:
     the operand is a local of the same name)"""
@@ -1014,6 +1053,15 @@ def check(ck, P, rule, only=None):
                           "zlib-ng's %s updates its local `%s` with %s and %s did so at %d place(s); it now does at %d although the local "
                           "is still there: an adjustment of the reference's working variable was dropped or turned into a fresh value"
                           % (cname, nm, op, fpath.replace(Z, ""), cnt, got), where(g))
+        if table.get("flush_variants", {}).get(key):
+            n += 1
+            allowed = set(table["flush_variants"][key])
+            now_ = rust_flush_variants(fns)
+            extra_ = sorted(now_ - allowed)
+            ck.decide(not extra_, rule, "%s:flush-variants" % cname, "flush compared only with %s" % sorted(allowed),
+                      "%s now distinguishes flush value(s) %s that zlib-ng's %s does not look at (it compares flush with %s only): "
+                      "the function behaves differently for a flush mode the reference treats like the others"
+                      % (", ".join(f.path.replace(Z, "") for f in fns), extra_, cname, sorted(allowed)), where(fns[0]))
         for fpath, want_ in sorted(table.get("local_assigns", {}).get(key, {}).items()):
             g = P.fns.get(fpath)
             if g is None:
